@@ -207,8 +207,9 @@ class Package:
 
 
 class Alias:
-    def __init__(self, pkg, m, q, fnode, roots):
+    def __init__(self, pkg, m, q, fnode, roots, state_mode=False):
         self.pkg, self.m, self.q, self.fnode = pkg, m, q, fnode
+        self.state_mode = state_mode
         self.depth = dict(roots)
         self.roots = set(roots)
         self._solve()
@@ -261,7 +262,8 @@ class Alias:
         if res is not None:
             m2, q2, f2, is_method = res
             ps = params_of(f2)
-            out = INF
+            # a helper that hands out (a part of) process-persistent module state: Package.global_ret, filled by the state analysis
+            out = self.pkg.global_ret.get((m2.rel, q2), INF) if self.state_mode else INF
             if is_method and ps:
                 dself = self.d(f.value)
                 if dself < INF:
